@@ -45,6 +45,7 @@ class CutPath(Exception):
 
 
 class SuperProxy:
+    _pyvc_symbolic = True
     def __init__(self, self_val, defcls):
         self.self_val = self_val
         self.defcls = defcls
@@ -76,9 +77,12 @@ class Frame:
 
 
 # ------------------------------------------------------------------ source index
+_PARSE_CACHE = {}
+
+
 class SourceIndex:
     def __init__(self):
-        self.files = {}
+        self.files = _PARSE_CACHE
         self.hashes = {}
 
     def parse(self, filename):
@@ -215,6 +219,9 @@ class Interp:
         m = self.models.get(id(fn))
         if m is not None:
             return m.fn(self, list(args), dict(kwargs))
+        tm = self.type_models.get(type(fn))
+        if tm is not None:
+            return tm(self, fn, list(args), dict(kwargs))
         if callable(fn):
             return self.native_call(fn, args, kwargs, node)
         if fn is None:
@@ -225,6 +232,9 @@ class Interp:
         m = self.models.get(id(fn))
         if m is not None:
             return m.fn(self, list(args), dict(kwargs))
+        return self.raw_native(fn, args, kwargs, node)
+
+    def raw_native(self, fn, args, kwargs, node=None):
         if not ops.all_concrete(list(args) + list(kwargs.values())):
             raise Unsupported(
                 f"no model for {getattr(fn, '__module__', '')}.{getattr(fn, '__qualname__', fn)} with symbolic arguments"
@@ -700,8 +710,10 @@ class Interp:
                         continue
                     parts.append(ops.opaque_str(self, "repr"))
                     continue
-                parts.append(ops.to_str(self, val, v))
-        return ops.concat_str(self, parts)
+                parts.append(val if isinstance(val, str) else ops.LazyStr(self, [val], v))
+        if all(isinstance(p, str) for p in parts):
+            return "".join(parts)
+        return ops.LazyStr(self, parts, node)
 
     def expr_FormattedValue(self, node, frame):
         return ops.to_str(self, self.eval(node.value, frame), node)
